@@ -132,6 +132,7 @@ def summarise(interp, b: CompB, body, env, path, node, src_cell):
         p.binders = parent.binders
         outcome = 'normal'
         exc = None
+        _apply_invs(interp, p, inner)
         try:
             iterate(interp, inner, body, env_c, p, node, None)
         except BreakSignal:
@@ -230,6 +231,18 @@ def summarise(interp, b: CompB, body, env, path, node, src_cell):
         interp.journal_write(path, cell, ('extend', SeqT([blk])))
         cell.term = mkseq(list(cell.term.blocks) + [blk])
     _poison(env, assigned)
+
+
+def _apply_invs(interp, path, t: SeqT):
+    """class invariants (model validity) of the model objects that are the elements of this iteration"""
+    from .values import DtV
+    for b in t.blocks:
+        if isinstance(b, LitB):
+            for it in b.items:
+                if isinstance(it, DtV):
+                    interp.apply_class_invs(it, path)
+        elif isinstance(b, GuardB):
+            _apply_invs(interp, path, b.body)
 
 
 def _generalise_exc(exc):
